@@ -81,7 +81,7 @@ type c19SP struct {
 }
 
 type c19World struct {
-	logins int
+	logins  int
 	c       *core.Ctx
 	store   *sched.MapStore
 	wrap    *sched.Wrapper
